@@ -121,7 +121,7 @@ pub fn observe(sc: &Scratch, c: &Case) -> Obs {
 }
 
 fn opt_bytes(b: &Option<Vec<u8>>) -> String {
-    coq::opt(b.as_ref().map(|x| coq::bytes_list(x)))
+    coq::opt(b.as_ref().map(|x| coq::bytes_term(x)))
 }
 
 fn term(c: &Case, o: &Obs) -> String {
@@ -130,7 +130,7 @@ fn term(c: &Case, o: &Obs) -> String {
         opt_bytes(&c.file),
         opt_bytes(&c.env_new),
         opt_bytes(&c.env_assert),
-        coq::bytes_list(c.got.as_bytes()),
+        coq::bytes_term(c.got.as_bytes()),
         o.new,
         opt_bytes(&o.file1),
         coq::bool_(o.touched1),
@@ -140,14 +140,20 @@ fn term(c: &Case, o: &Obs) -> String {
     )
 }
 
-/// text when it is UTF-8, else the byte array
+/// text when it is UTF-8, else the byte array; a long content as {"len", "rle": [[count, unit], ..]}
+/// (the content is the units repeated count times, concatenated; a unit is text when it is
+/// UTF-8, else a byte array)
 fn jbytes(b: &Option<Vec<u8>>) -> Value {
-    match b {
-        None => Value::Null,
-        Some(v) => match std::str::from_utf8(v) {
+    fn unit(v: &[u8]) -> Value {
+        match std::str::from_utf8(v) {
             Ok(s) => json!(s),
             Err(_) => json!(v),
-        },
+        }
+    }
+    match b {
+        None => Value::Null,
+        Some(v) if v.len() > 2048 => json!({"len": v.len(), "rle": coq::rle(v).iter().map(|(k, u)| json!([k, unit(u)])).collect::<Vec<_>>()}),
+        Some(v) => unit(v),
     }
 }
 
@@ -155,7 +161,7 @@ fn replay(c: &Case, o: &Obs) -> Value {
     let new_s = ["Ok", "Err(NotFound)", "Err(other)", "panic"][o.new as usize];
     let assert_s = ["not called", "returned", "panicked: comparison failed", "panicked: other"][o.assert as usize];
     json!({"property": "C20", "file": jbytes(&c.file), "env_new": jbytes(&c.env_new), "env_assert": jbytes(&c.env_assert),
-           "got": c.got,
+           "got": jbytes(&Some(c.got.as_bytes().to_vec())),
            "impl": {"new": new_s, "file_after_new": jbytes(&o.file1),
                     "touched_by_new": o.touched1,
                     "assert": assert_s,
@@ -168,6 +174,17 @@ fn from_json(v: &Value) -> Option<Case> {
         match v {
             Some(Value::String(s)) => Some(s.as_bytes().to_vec()),
             Some(Value::Array(a)) => Some(a.iter().map(|x| x.as_u64().unwrap_or(0) as u8).collect()),
+            Some(Value::Object(o)) => {
+                let mut out = Vec::new();
+                for seg in o.get("rle")?.as_array()? {
+                    let k = seg.get(0)?.as_u64()?;
+                    let u = bytes(seg.get(1))?;
+                    for _ in 0..k {
+                        out.extend_from_slice(&u);
+                    }
+                }
+                Some(out)
+            }
             _ => None,
         }
     }
@@ -175,12 +192,20 @@ fn from_json(v: &Value) -> Option<Case> {
         file: bytes(v.get("file")),
         env_new: bytes(v.get("env_new")),
         env_assert: bytes(v.get("env_assert")),
-        got: v.get("got")?.as_str()?.to_string(),
+        got: String::from_utf8(bytes(v.get("got"))?).ok()?,
     })
 }
 
-/// Levenshtein distance on bytes, capped
+/// Levenshtein distance on bytes (common prefix and suffix do not count and are cut first;
+/// what remains is capped at 512 bytes: beyond that the texts are simply "far apart")
 fn distance(a: &[u8], b: &[u8]) -> usize {
+    let pre = a.iter().zip(b.iter()).take_while(|(x, y)| x == y).count();
+    let (a, b) = (&a[pre..], &b[pre..]);
+    let suf = a.iter().rev().zip(b.iter().rev()).take_while(|(x, y)| x == y).count();
+    let (a, b) = (&a[..a.len() - suf], &b[..b.len() - suf]);
+    if a.len() > 512 || b.len() > 512 {
+        return a.len().max(b.len());
+    }
     let mut prev: Vec<usize> = (0..=b.len()).collect();
     for i in 1..=a.len() {
         let mut cur = vec![i; b.len() + 1];
@@ -218,6 +243,10 @@ fn emit(sh: &mut Shards, st: &mut Stats, sc: &Scratch, c: &Case, tag: &str) {
     if c.env_new != c.env_assert {
         st.count("state:env changed between new and assert");
     }
+    if let Some(f) = &c.file {
+        count_big(st, "file", f);
+    }
+    count_big(st, "got", c.got.as_bytes());
     st.count(&format!("impl:new {}", ["ok", "err notfound", "err other", "panic"][o.new as usize]));
     st.count(&format!("impl:assert {}", ["not called", "returned", "comparison panic", "other panic"][o.assert as usize]));
     if let Some(f) = &c.file {
@@ -326,6 +355,207 @@ fn gen_got(r: &mut Rng, content: &str) -> String {
     }
 }
 
+
+// ---------- large files ----------
+// The helper reads the golden file and writes `got` through std::fs; an implementation that
+// streams either of them in blocks sees a multi-byte character or a CRLF pair cut in two at a
+// block boundary.  These cases lay every kind of token across every offset around the usual
+// block sizes, under every operation of the helper.
+
+const BOUNDARIES_QUICK: [usize; 5] = [4096, 8192, 16384, 32768, 65536];
+const BOUNDARIES_ALL: [usize; 10] = [4096, 8192, 12288, 16384, 24576, 32768, 65536, 73728, 131072, 196608];
+/// what is laid across the offset
+const TOKENS: [(&str, &str); 10] = [
+    ("é", "2-byte character"),
+    ("日", "3-byte character"),
+    ("😀", "4-byte character"),
+    ("\r\n", "CRLF"),
+    ("\r\r\n", "CR CRLF"),
+    ("\r", "lone CR"),
+    ("\u{feff}", "U+FEFF"),
+    ("e\u{301}", "letter + combining mark"),
+    ("ß\r\n", "2-byte character + CRLF"),
+    ("\r\n\r\n", "two CRLF"),
+];
+/// what the rest of the file is made of (the unit is repeated)
+const FILLERS: [&str; 6] = ["0123456789abcde\n", "a", "zazen boys\r\n", "日本語\n", "é", "😀\r\n"];
+
+fn normalise(s: &str) -> String {
+    s.replace("\r\n", "\n")
+}
+
+/// exactly `len` bytes: `p` bytes first, so that the text ends with whole units
+fn fill_to(unit: &str, len: usize) -> String {
+    let mut o = "p".repeat(len % unit.len());
+    o.push_str(&unit.repeat(len / unit.len()));
+    o
+}
+
+struct Big {
+    prefix: String,
+    token: &'static str,
+    tail: String,
+}
+
+impl Big {
+    fn content(&self) -> String {
+        format!("{}{}{}", self.prefix, self.token, self.tail)
+    }
+    /// the normalised content with something else in the token's place
+    fn other(&self, repl: &str) -> String {
+        format!("{}{}{}", normalise(&self.prefix), repl, normalise(&self.tail))
+    }
+}
+
+/// (case, name of the operation) for operation `op` on the large content
+fn big_case(b: &Big, op: usize) -> (Case, &'static str) {
+    let content = b.content();
+    let norm = normalise(&content);
+    let one = Some(b"1".to_vec());
+    let file = Some(content.clone().into_bytes());
+    let mk = |file: Option<Vec<u8>>, e1: Option<Vec<u8>>, e2: Option<Vec<u8>>, got: String| Case { file, env_new: e1, env_assert: e2, got };
+    match op % 12 {
+        0 => (mk(file, None, None, norm), "assert: got = content normalised"),
+        1 => (mk(file, None, None, content), "assert: got = content as it is"),
+        2 => (mk(file, None, None, b.other("X")), "assert: got differs from the content only in the token at the offset"),
+        3 => (mk(file, None, None, normalise(&b.prefix)), "assert: got = content cut at the offset"),
+        4 => (mk(Some(b"old\n".to_vec()), one.clone(), one, content), "update: small file, large got"),
+        5 => (mk(None, one.clone(), one, content), "update: file absent, large got"),
+        6 => (mk(file, one, None, norm), "new with UPDATE_GOLDEN set, assert without: got = content normalised"),
+        7 => (mk(file, None, one, b.other("Y\r\n")), "new without UPDATE_GOLDEN, assert with it: large file replaced by another large got"),
+        8 => (mk(file, Some(vec![]), Some(vec![]), norm), "assert with UPDATE_GOLDEN empty: got = content normalised"),
+        9 => (mk(None, None, None, norm), "new: file absent, large got"),
+        10 => (mk(file, None, None, format!("{}{}", norm, "\n")), "assert: got = content normalised + LF"),
+        _ => (mk(file, one.clone(), one, b.other("Z")), "update: large file replaced by a got that differs at the offset"),
+    }
+}
+
+/// does a multi-byte character / a CRLF pair lie across a multiple of `block`?
+fn straddles(b: &[u8], block: usize) -> (bool, bool) {
+    let (mut ch, mut crlf) = (false, false);
+    let mut k = block;
+    while k < b.len() {
+        if b[k] & 0xC0 == 0x80 {
+            ch = true;
+        }
+        if b[k - 1] == b'\r' && b[k] == b'\n' {
+            crlf = true;
+        }
+        k += block;
+    }
+    (ch, crlf)
+}
+
+fn count_big(st: &mut Stats, what: &str, b: &[u8]) {
+    if b.len() < 4096 {
+        return;
+    }
+    st.count(&format!("big:{} of {} KiB or more", what, if b.len() >= 65536 { 64 } else if b.len() >= 8192 { 8 } else { 4 }));
+    for block in [4096usize, 8192, 65536] {
+        let (ch, crlf) = straddles(b, block);
+        if ch {
+            st.count(&format!("big:{} with a multi-byte character across a multiple of {}", what, block));
+        }
+        if crlf {
+            st.count(&format!("big:{} with a CRLF pair across a multiple of {}", what, block));
+        }
+    }
+}
+
+/// every token at every offset around every boundary, fillers, tails and operations in rotation
+fn big_boundary_cases(sh: &mut Shards, st: &mut Stats, sc: &Scratch, thorough: bool) {
+    let bounds: &[usize] = if thorough { &BOUNDARIES_ALL } else { &BOUNDARIES_QUICK };
+    let mut idx = 0usize;
+    for (bi, bd) in bounds.iter().enumerate() {
+        for (ti, (tok, tname)) in TOKENS.iter().enumerate() {
+            // the token starts j bytes before the boundary: j = 0 (it begins exactly there) ..
+            // its length (it ends exactly there), and one byte beyond on either side
+            for j in 0..=tok.len() + 1 {
+                let start = bd + 1 - j; // j = 0: one byte after the boundary
+                let fillers: Vec<&str> = if thorough { vec![FILLERS[idx % 6], FILLERS[(idx + 3) % 6]] } else { vec![FILLERS[idx % 6]] };
+                for unit in fillers {
+                    let tail_units = [0usize, 1, 9, 8192 / unit.len() + 3][(idx / 2) % 4];
+                    let big = Big { prefix: fill_to(unit, start), token: tok, tail: unit.repeat(tail_units) };
+                    let ops: Vec<usize> = if thorough { vec![idx % 4, 4 + idx % 8, (idx + 2) % 4, 4 + (idx + 3) % 8] } else { vec![idx % 4, 4 + idx % 8] };
+                    for op in ops {
+                        let (c, opname) = big_case(&big, op);
+                        st.count(&format!("big:boundary {}", bd));
+                        st.count(&format!("big:token {}", tname));
+                        st.count(&format!("big:token starts {} byte(s) {} the boundary", if j == 0 { 1 } else { j - 1 }, if j == 0 { "after" } else { "before" }));
+                        st.count(&format!("big:operation {}", opname));
+                        emit(sh, st, sc, &c, "large-boundary");
+                    }
+                    idx += 1;
+                }
+            }
+            let _ = (bi, ti);
+        }
+    }
+}
+
+const UNITS: [&str; 14] = ["0123456789abcde\n", "zazen boys\r\n", "日本語\n", "é", "😀", "ß\r\n", "a", "\r\n", "\n", "\r", "\r\r\n", "x y\t", "日", "number girl\n"];
+
+/// a large text of a few runs of one unit each, with tokens laid around multiples of 4096 / 8192
+fn gen_big_text(r: &mut Rng) -> (String, Vec<(usize, usize)>) {
+    let mut s = String::new();
+    let mut marks: Vec<(usize, usize)> = Vec::new(); // (start, length) of the tokens
+    let runs = 1 + r.below(3);
+    for _ in 0..runs {
+        let step = *r.pick(&[4096usize, 8192, 8192, 65536]);
+        let next = (s.len() / step + 1 + r.below(2) as usize) * step;
+        if next > 200_000 {
+            break;
+        }
+        let (tok, _) = *r.pick(&TOKENS);
+        let j = r.below(tok.len() as u64 + 2) as usize;
+        let start = next + 1 - j;
+        let unit = *r.pick(&UNITS);
+        if start < s.len() {
+            continue;
+        }
+        // a run ending in CR followed by a token starting with LF cannot occur: no token starts with LF
+        s.push_str(&fill_to(unit, start - s.len()));
+        marks.push((s.len(), tok.len()));
+        s.push_str(tok);
+    }
+    let unit = *r.pick(&UNITS);
+    s.push_str(&unit.repeat(r.below(40) as usize));
+    (s, marks)
+}
+
+fn gen_big_case(r: &mut Rng) -> Case {
+    let (content, marks) = gen_big_text(r);
+    let norm = normalise(&content);
+    let got = match r.below(10) {
+        0 => content.clone(),
+        1..=3 => norm.clone(),
+        4 | 5 => {
+            // another character in the place of one token
+            let (at, len) = *r.pick(&marks);
+            format!("{}{}{}", &content[..at], r.pick(&["X", "é", "\n", ""]), &content[at + len..]).replace("\r\n", "\n")
+        }
+        6 => {
+            // an edit far from the tokens
+            let mut k = r.below(norm.len() as u64 + 1) as usize;
+            while !norm.is_char_boundary(k) {
+                k -= 1;
+            }
+            format!("{}{}{}", &norm[..k], r.pick(&["a", "\r", "\n", "é"]), &norm[k..])
+        }
+        7 => norm.trim_end().to_string(),
+        8 => gen_big_text(r).0,
+        _ => gen_text(r),
+    };
+    let env_new = gen_env(r);
+    let env_assert = if r.chance(4, 5) { env_new.clone() } else { gen_env(r) };
+    let file = match r.below(8) {
+        0 => None,
+        1 => Some(gen_text(r).into_bytes()),
+        _ => Some(content.into_bytes()),
+    };
+    Case { file, env_new, env_assert, got }
+}
+
 fn gen_env(r: &mut Rng) -> Option<Vec<u8>> {
     match r.below(20) {
         0..=9 => None,
@@ -352,7 +582,7 @@ pub fn run(o: &Opts) {
         o.shards,
         "From Coq Require Import List NArith.\nFrom Okv Require Import Run.Classify_C20.\nImport ListNotations.\nOpen Scope N_scope.",
     );
-    st.rule = "a case = (golden file bytes or absent, UPDATE_GOLDEN at Golden::new, UPDATE_GOLDEN at Golden::assert, got); exhaustive content x got over {a, CR, LF} up to a bounded length with the file present and the variable unset, the same strings under every env/file state for short lengths, seeded random multi-line texts (LF, CRLF, lone CR, CRCRLF, LFCR separators; non-ASCII words; got derived from the content by normalising, re-adding CRLF, trimming, appending a newline, stripping CR, 0-2 character edits) + corpus; run on the real okane_golden::Golden against a scratch file; non-trivial = content and got at byte edit distance <= 2, or the file is absent, or UPDATE_GOLDEN is set (empty or not) at either call; distinct by the whole case".into();
+    st.rule = "a case = (golden file bytes or absent, UPDATE_GOLDEN at Golden::new, UPDATE_GOLDEN at Golden::assert, got); exhaustive content x got over {a, CR, LF} up to a bounded length with the file present and the variable unset, the same strings under every env/file state for short lengths, seeded random multi-line texts (LF, CRLF, lone CR, CRCRLF, LFCR separators; non-ASCII words; got derived from the content by normalising, re-adding CRLF, trimming, appending a newline, stripping CR, 0-2 character edits), large files and large got strings (4 KiB to 200 KiB, made of runs of one repeated unit: ASCII lines, CRLF lines, 2-, 3- and 4-byte characters) in which a 2-, 3- or 4-byte character, U+FEFF, a letter with a combining mark, CRLF, CR CRLF, two CRLF or a lone CR starts at every byte offset from one past its own length before to one byte after a multiple of 4096 / 8192 / 65536 (4096, 8192, 16384, 32768, 65536; the thorough tier adds 12288, 24576, 73728, 131072, 196608), with nothing, one unit, nine units or more than 8 KiB after it, under twelve operations in rotation (assert with got = the content normalised / as it is / differing only in the token at the offset / cut at the offset / plus a line feed; UPDATE_GOLDEN non-empty with a small file, an absent file, or a large file replaced by a got differing at the offset; set only at new or only at assert; empty; file absent), plus seeded random large texts of 1-3 such runs with got derived as above or by replacing one token / editing far from the tokens (long texts are written to the case files in a lossless run-length form computed from the bytes themselves and expanded inside Coq), + corpus; run on the real okane_golden::Golden against a scratch file; non-trivial = content and got at byte edit distance <= 2, or the file is absent, or UPDATE_GOLDEN is set (empty or not) at either call; distinct by the whole case".into();
     st.assumptions.push("golden file content is valid UTF-8 (read_to_string's InvalidData error is outside the model); the directory of the golden file exists and is writable (the expect(\"Update golden failed\") panic is outside the model)".into());
     let sc = Scratch::new("c20");
     // corpus and replay
@@ -446,6 +676,13 @@ pub fn run(o: &Opts) {
             let case = Case { file: None, env_new: None, env_assert: None, got: String::from_utf8(g.clone()).unwrap() };
             emit(&mut sh, &mut st, &sc, &case, "exhaustive-env");
         }
+    }
+    // large files: tokens across block boundaries under every operation
+    big_boundary_cases(&mut sh, &mut st, &sc, o.thorough);
+    let mut rb = Rng::new(o.seed, 2021);
+    for _ in 0..if o.thorough { 1500 } else { 200 } {
+        let c = gen_big_case(&mut rb);
+        emit(&mut sh, &mut st, &sc, &c, "large-random");
     }
     // random
     let mut r = Rng::new(o.seed, 2020);
